@@ -14,7 +14,13 @@ def main():
         elif args[i] == '--replay': replay = args[i + 1]; i += 2
         elif args[i] == '--jobs': os.environ['VERIF_JOBS'] = args[i + 1]; i += 2
         else: i += 1
-    import common
+    import common, signal
+    budget = int(os.environ.get('VERIF_BUDGET_S', '1500' if common.tier() == 'quick' else '14400'))
+    def on_alarm(sig, frm):
+        print(f'MACHINERY: {pid} exceeded its wall-clock budget of {budget}s (inconclusive, never a pass)')
+        print(f'[vcheck] {pid} tier={common.tier()} exit=2'); sys.stdout.flush()
+        os._exit(2)
+    signal.signal(signal.SIGALRM, on_alarm); signal.alarm(budget)
     try:
         mod = importlib.import_module('props.' + pid.lower())
     except ImportError as e:
